@@ -4,11 +4,12 @@ A worker script (written to a temp directory, removed afterwards) defines its gr
 configurable amount of garbage, then runs (algorithm x representation x grammar x seed) configurations and records
 the sequence of programs handed to the fitness function plus the returned best program / fitness.
 
-* in-process: the worker is loaded as a module; every configuration is run three times: A (fresh grammar),
-  B (the SAME grammar object again, fresh source and representation), C (fresh grammar).  A/C and A/B must agree.
-* cross-process: the same configurations run in 4-6 subprocesses with different PYTHONHASHSEED, different amounts
-  of garbage allocated before the classes exist, and library import before / after the garbage; all recorded
-  sequences must agree with each other and with the in-process run.
+* one process (#0) runs every configuration three times: A (fresh grammar), B (the SAME grammar object again, fresh
+  source and representation), C (fresh grammar).  A/C and A/B must agree.  (It is a subprocess too, so that a library
+  hang - the stack mapper can loop without bound - cannot take the driver down; each configuration runs under a 6 s alarm
+  and a run stopped by it is only compared on the common prefix of evaluated programs.)
+* 4-6 further processes run the same configurations once, with different PYTHONHASHSEED, different amounts of garbage
+  allocated before the classes exist, and library import before / after the garbage; all recorded sequences must agree.
 Differences are attributed automatically where the evidence is in the data: programs that only differ in an object
 address inside a generated `str`, stack mappings whose symbol-set order differs between the processes, reruns on a
 grammar object that the first run modified.
